@@ -20,7 +20,7 @@ from .common import L
 ID = "C07"
 CANARY_IS_VIOLATION = True
 RUNS = {"quick": 5_000, "thorough": 100_000}
-BUDGET_S = {"quick": 60, "thorough": 800}
+BUDGET_S = {"quick": 120, "thorough": 800}
 CHUNK = 60
 SHRINK_BUDGET = 150
 RULE = ("each run draws a (domain, problem), 1-3 client scripts of 3-9 operations each (Operator construction, ground, "
